@@ -121,10 +121,19 @@ def render_html(res):
             head.append('<link rel="stylesheet" href="%s">' % sp)
         elif tag == 'script':
             head.append('<script src="%s"></script>' % sp)
+        elif tag == 'iframe':
+            body.append('<iframe src="%s"></iframe>' % sp)
+        elif tag == 'embed':
+            body.append('<embed src="%s">' % sp)
+        elif tag == 'input':
+            body.append('<form><input type="image" src="%s"></form>' % sp)
         else:
             body.append('<img src="%s" alt="i">' % sp)
-    for dst, sp in res.links:
-        body.append('<a href="%s">link</a>' % sp)
+    for i, (dst, sp) in enumerate(res.links):
+        if i % 5 == 4:
+            body.append('<map name="m%d"><area shape="rect" coords="0,0,1,1" href="%s" alt="a"></map>' % (i, sp))
+        else:
+            body.append('<a href="%s">link</a>' % sp)
     return ('<!DOCTYPE html>\n<html><head>%s</head>\n<body>\n%s\n%s</body></html>\n'
             % (''.join(head), '\n'.join(body), res.extra_html)).encode('utf-8')
 
@@ -271,7 +280,12 @@ def gen_site(tape, nhosts=1, npages=6, with_requisites=True, with_redirects=True
             p.links.append((p, spell(tape, p, p)))
         for a in assets:
             if tape.chance(1, 3, 'site.inline'):
-                p.inlines.append((a, spell(tape, p, a), 'css' if a.kind == 'css' else 'img'))
+                p.inlines.append((a, spell(tape, p, a), 'css' if a.kind == 'css' else tape.choice(('img', 'img', 'embed', 'input'), 'site.inline.tag')))
+        if tape.chance(1, 8, 'site.iframe'):
+            # another page of the site shown in a frame: an embedded object that is an HTML document with links of its own
+            fr = pages[tape.draw(len(pages), 'site.iframe.dst')]
+            if fr is not p and (cross_host_links or fr.origin.key() == p.origin.key()):
+                p.inlines.append((fr, spell(tape, p, fr), 'iframe'))
             if a.kind == 'bin' and tape.chance(1, 6, 'site.link_to_asset'):
                 # the same object may be linked (<a>) as well as embedded. Only leaf objects: a style sheet reached both
                 # ways would make everything below it depend on which record the table happened to keep (C01-K2/K3)
